@@ -54,6 +54,7 @@ def init_ref(cfg):
         "mean_velocity": 1.0,
         "synced": True,
         "reused": False,
+        "lastpos": None,
         "ncalls": 0,
     }
     if cfg["gen"] == "IncomprRandMeth":
@@ -101,12 +102,19 @@ def apply_op(srf, ref, op, cfg, twin):
     """apply one operation to the real object and to the reference; returns output or None"""
     k = op["k"]
     if k == "call":
+        if op["pos"] is None:  # on the positions kept from the last request
+            if ref.get("lastpos") is None:
+                return "SKIP"
+            op = dict(op, pos=ref["lastpos"], kept=True)
         pos = positions(cfg, op["pos"])
+        ref["lastpos"] = op["pos"]
         kw = {}
         if op.get("seed") is not None:
             kw["seed"] = seed_obj(op["seed"], twin)
             ref["seed"] = op["seed"]
-        if op["pos"] == "G":
+        if op.get("kept"):
+            out = srf(**kw)
+        elif op["pos"] == "G":
             out = srf.structured(pos, **kw)
         else:
             out = srf(pos, **kw)
@@ -219,10 +227,14 @@ def case_hist(case):
     cfg, hist = case["cfg"], case["hist"]
     r = R()
     srf, ref, outs = run_history(cfg, hist, "same")
+    if any(isinstance(o, str) for o in outs):
+        return R().done(skip="call on kept positions before any positions were given")
     key = canon(ref)
     if not hist or hist[-1]["k"] != "call":
         return r.done(outcome=key, nontrivial=bool(hist))
     op = hist[-1]
+    if op["pos"] is None:  # judged at the positions that were kept
+        op = dict(op, pos=ref["lastpos"])
     out = outs[-1]
     extra = {"gen": cfg["gen"], "cls": cfg["cls"], "last": op["k"], "prev": hist[-2]["k"] if len(hist) > 1 else "init", "prevattr": (hist[-2].get("attr") or hist[-2].get("which") or "") if len(hist) > 1 else ""}
     r.true("output finite", bool(np.all(np.isfinite(out))), **extra)
@@ -275,12 +287,16 @@ def ops_for(cfg, tier="quick"):
     A({"k": "call", "pos": "Q", "seed": None})
     A({"k": "call", "pos": "P2", "seed": None})
     A({"k": "call", "pos": "G", "seed": "S1"})
+    A({"k": "call", "pos": None, "seed": None})
+    A({"k": "call", "pos": None, "seed": "S1"})
     for attr, v in [("var", 2.6), ("var", 1.3), ("len_scale", 3.0), ("len_scale", 2.0), ("len_scale", 2.002)]:
         A({"k": "model", "attr": attr, "v": v})
     if cfg["gen"] != "IncomprRandMeth" and d > 1:
         A({"k": "model", "attr": "anis", "v": [0.75, 0.6][: d - 1]})
         A({"k": "model", "attr": "anis", "v": list(BASE_ANIS[d])})
         A({"k": "model", "attr": "anis", "v": [1.0] * (d - 1)})  # anisotropic -> isotropic
+        if d > 2:
+            A({"k": "model", "attr": "anis", "v": [BASE_ANIS[d][0], 1.7]})  # only one of the ratios changes
         if cfg.get("rotate", True):
             A({"k": "model", "attr": "angles", "v": [1.0, 0.5, -0.4][: len(BASE_ANGLES[d])]})
     for name, v in cfg.get("opt_ops", []):
